@@ -127,3 +127,71 @@ Proof. exact ex_npd_outcomes. Qed.
 Theorem load_npd_only_ebadmsg_refuted : exists b, load_npd b = NError NEINVAL.
 Proof. exact npd_einval_reachable. Qed.
 Print Assumptions load_npd_only_ebadmsg_refuted.
+
+(* ==== the parsers' own buffers at pointer level (session 5, package B) ======================================== *)
+(* Models Files/TsMem.v (Touchstone: token text, value vector, [Reference] vector) and Files/TsMemNpd.v (NPD: line
+   text, field vector, z0 vector) in the checked-memory monad of Mem/Alloc.v: every store and load is checked against
+   the allocation and the initialisation of the cell, every pointer use against the ledger of live blocks, and every
+   request of the parser can fail (start (Some k): the (k+1)-th request returns NULL; start None: none fails). *)
+Require Import LV.Mem.Alloc LV.Files.TsMem LV.Files.TsMemProofs LV.Files.TsMemNpd LV.Files.TsMemNpdProofs.
+
+(* ts_no_fault: for every byte string and every failing request the Touchstone loader never stores or loads outside
+   a buffer, never reads an uninitialised cell, never uses or frees a block that is not live *)
+Theorem ts_no_fault : forall (bytes : list N) (k : option nat) (f : fault), mem_load_ts bytes (start k) <> Fault f.
+Proof. exact ts_no_fault_lemma. Qed.
+Print Assumptions ts_no_fault.
+
+(* ts_no_leak: after the loader returns - success, syntax error or ENOMEM - the ledger holds no parser block *)
+Theorem ts_no_leak : forall (bytes : list N) (k : option nat) r s',
+  mem_load_ts bytes (start k) = Alloc.Ok (r, s') -> live s' = [].
+Proof. exact ts_no_leak_lemma. Qed.
+Print Assumptions ts_no_leak.
+
+(* the invariant behind both is met in the middle of a load: text buffer grown twice (256), a two-entry [Reference]
+   vector, two live blocks *)
+Theorem ts_mem_inv_satisfiable :
+  exists st s, (p <- malloc initial_text ;;
+                match p with
+                | Some b => mrun (tokens mid_bytes) (MRun SStart, set_text m_empty (Some b) (fresh_arr initial_text))
+                | None => ret (MNoMem, m_empty)
+                end) (start None) = Alloc.Ok (st, s) /\
+    SInv st s /\ length (live s) = 2%nat /\ calloc (t_tarr (snd st)) = 256%Z /\ calloc (t_rarr (snd st)) = 2%Z.
+Proof. exact ts_mem_inv_satisfiable_lemma. Qed.
+Print Assumptions ts_mem_inv_satisfiable.
+
+(* add_char with the test of the seeded change C09-3 ("length >= allocation"): a word of 64 characters is an
+   out-of-bounds store of the NUL *)
+Theorem add_char_late_oob_refuted :
+  exists w, (p <- malloc initial_text ;; scan_word_late (set_text m_empty p (fresh_arr initial_text)) w) (start None) = Fault OOB.
+Proof. exact add_char_late_oob_refuted_lemma. Qed.
+Print Assumptions add_char_late_oob_refuted.
+
+(* npd_no_fault / npd_no_leak: the same two statements for the NPD loader (scan_line's text and field vector, FIELD(i)
+   for every field the loader examines, the '#:parameters' join, the z0 vector), with fix DB90 *)
+Theorem npd_no_fault : forall (bytes : list N) (k : option nat) (f : fault), mem_load_npd NFixed bytes (start k) <> Fault f.
+Proof. exact npd_no_fault_lemma. Qed.
+Print Assumptions npd_no_fault.
+
+Theorem npd_no_leak : forall (bytes : list N) (k : option nat) r s',
+  mem_load_npd NFixed bytes (start k) = Alloc.Ok (r, s') -> live s' = [].
+Proof. exact npd_no_leak_lemma. Qed.
+Print Assumptions npd_no_leak.
+
+(* npd_data_fields_in_range: the field accounting of the loader ("Find the best parameter") keeps every field index
+   the data-line loop uses below the number of fields it demands of a data line *)
+Theorem npd_data_fields_in_range : forall h x, post_header h = inr x ->
+  (0 <= x_ports x /\ 1 <= x_nfields x /\ (x_fz0 x = true -> 1 + 2 * x_ports x <= x_nfields x) /\
+   0 <= x_first x /\ 0 <= x_cells x /\ x_first x + 2 * x_cells x <= x_nfields x)%Z.
+Proof. exact post_header_bounds. Qed.
+Print Assumptions npd_data_fields_in_range.
+
+(* as found (before fix DB90): end_field ignores the ENOMEM of the add_char that stores the NUL; '#:ports' with a
+   73-character argument and the third request failing reads one byte past the text block (Fault OOB); with the fix
+   the same input and failure point give -1 / ENOMEM and an empty ledger *)
+Theorem npd_end_field_orig_refuted : exists bytes k, mem_load_npd NOrig bytes (start (Some k)) = Fault OOB.
+Proof. exact npd_end_field_orig_refuted_lemma. Qed.
+Print Assumptions npd_end_field_orig_refuted.
+
+Example npd_end_field_fixed_example :
+  exists rep s, mem_load_npd NFixed db90_bytes (start (Some 2%nat)) = Alloc.Ok ((NMENOMEM, rep), s) /\ live s = [].
+Proof. exact npd_end_field_fixed_example_lemma. Qed.
